@@ -1,7 +1,7 @@
 ------------------------------ MODULE C17Trace ------------------------------
 (* V mode for C17: judge changelog.Parse / ParseOne on rendered changelogs,  *)
 (* on every prefix of each, and on single-edit corruptions.                  *)
-EXTENDS Changelog, TraceLib
+EXTENDS Changelog, TraceLib, LongTrace
 VARIABLES l, verdict
 vars == <<l, verdict>>
 
@@ -46,6 +46,6 @@ Judge(rec) ==
       [] OTHER -> V(FALSE, "unknown-event", "unknown event")
 
 Init == l \in 1..Len(Trace) /\ verdict = Pending
-Next == verdict.class = "pending" /\ verdict' = Judge(Trace[l]) /\ UNCHANGED l
+Next == verdict.class = "pending" /\ verdict' = JudgeOrCrash(Trace[l], LAMBDA r : IF IsLong(r) THEN JudgeLong(r) ELSE Judge(r)) /\ UNCHANGED l
 Spec == Init /\ [][Next]_vars
 =============================================================================
